@@ -98,6 +98,14 @@ func (s *Solver) header() {
 	}
 }
 
+// primaryMs is the cap for the in-process attempt; what it cannot decide goes to the portfolio.
+func (s *Solver) primaryMs() int {
+	if s.timeoutMs > 8000 {
+		return 8000
+	}
+	return s.timeoutMs
+}
+
 func (s *Solver) Close() {
 	if s.cmd != nil {
 		s.in.Close()
@@ -300,14 +308,14 @@ func (s *Solver) Check(extra *Term, wantModel bool) (SatResult, Model) {
 	} else {
 		// the tactic pipeline (bit-blasting + SAT) is far more predictable on 64-bit comparison/urem
 		// queries than z3's incremental core, and still runs inside the long-lived process
-		s.send(fmt.Sprintf("(check-sat-using (try-for qfbv %d))", s.timeoutMs))
+		s.send(fmt.Sprintf("(check-sat-using (try-for qfbv %d))", s.primaryMs()))
 	}
 	s.flush()
 	var res SatResult
 	// watchdog: z3 does not always honour :timeout inside bit-blasting; kill the process after the cap
 	proc := s.cmd.Process
 	killed := false
-	timer := time.AfterFunc(time.Duration(s.timeoutMs+5000)*time.Millisecond, func() {
+	timer := time.AfterFunc(time.Duration(s.primaryMs()+5000)*time.Millisecond, func() {
 		killed = true
 		proc.Kill()
 	})
